@@ -242,6 +242,19 @@ func (r *Run) Finish() {
 		fmt.Printf("VIOLATION property=%s replay=%s\n", r.ID, path)
 		fmt.Printf("  rule=%s signature=%s\n  %s\n", v.Rule, v.Signature, v.Detail)
 	}
+	// every listed finding of this property gets its line, also when this run's workload did not reproduce it
+	for _, k := range known {
+		if k.Property != r.ID {
+			continue
+		}
+		hit := false
+		for _, s := range knownHit {
+			hit = hit || s == k.Signature
+		}
+		if !hit {
+			fmt.Printf("KNOWN-FINDING: property=%s %s [%s] (listed; not reproduced by this run's workload)\n", r.ID, k.What, k.Signature)
+		}
+	}
 	keys := make([]string, 0, len(r.distinct))
 	for k := range r.distinct {
 		keys = append(keys, k)
